@@ -10,12 +10,14 @@ namespace DC.Recipes
 /-- `lock_mutex`: at most one contender is between a successful acquire and its release -/
 theorem lock_mutex (evs : List Ev) : ((LockSys.run {} evs).holding.length ≤ 1) ∧
     ((LockSys.run {} evs).st.held = true ↔ (LockSys.run {} evs).holding.length = 1) := by
-  sorry
+  have h := LockSys.inv_run {} evs LockSys.inv_init
+  unfold LockSys.Inv at h
+  cases hh : (LockSys.run {} evs).st.held <;> simp_all
 
 /-- `acquire_progress` (Lock): a free lock is acquired by the next attempt, a held one is not -/
 theorem lock_attempt (s : LockSys) (who : Nat) :
     (s.step (.acquire who)).2 = !s.st.held := by
-  sorry
+  cases hh : s.st.held <;> simp [LockSys.step, LockSt.tryAcquire, hh]
 
 /-- `rlock_mutex`: at most one contender holds the RLock (with any depth) at any instant, and
 it is the recorded owner; the recorded count is that contender's depth -/
@@ -24,13 +26,30 @@ theorem rlock_mutex (evs : List Ev) :
     (∀ a b, 0 < s.depth a → 0 < s.depth b → a = b) ∧
     (∀ a, 0 < s.depth a → s.st.owner = some a ∧ s.st.count = s.depth a) ∧
     ((∀ a, s.depth a = 0) → s.st.count = 0) := by
-  sorry
+  intro s
+  exact RLockSys.inv_facts s (RLockSys.inv_run {} evs RLockSys.inv_init)
 
 /-- `rlock_reentrant`: an attempt succeeds exactly when the lock is free or the caller holds it -/
 theorem rlock_attempt (evs : List Ev) (who : Nat) :
     let s := RLockSys.run {} evs
     (s.step (.acquire who)).2 = true ↔ ((∀ a, s.depth a = 0) ∨ 0 < s.depth who) := by
-  sorry
+  intro s
+  have hinv : s.Inv := RLockSys.inv_run {} evs RLockSys.inv_init
+  obtain ⟨_, f2, f3⟩ := RLockSys.inv_facts s hinv
+  obtain ⟨h1, h2⟩ := hinv
+  by_cases hc : s.st.owner = some who ∨ s.st.count = 0
+  · rw [RLockSys.step_acquire_ok s who hc]
+    simp only [true_iff]
+    rcases hc with hc | hc
+    · by_cases h0 : s.st.count = 0
+      · left; intro a; rw [h1 a]; split <;> simp [h0]
+      · right; rw [h1 who]; simp [hc]; omega
+    · left; intro a; rw [h1 a]; split <;> simp [hc]
+  · rw [RLockSys.step_acquire_fail s who hc]
+    simp only [Bool.false_eq_true, false_iff]
+    rintro (h | h)
+    · exact hc (Or.inr (f3 h))
+    · exact hc (Or.inl (f2 who h).1)
 
 /-- `rlock_release_refused`: releasing what the caller does not hold is refused and changes nothing;
 releasing what it holds lowers its depth by one — so the lock is free after as many releases -/
@@ -39,21 +58,42 @@ theorem rlock_release (evs : List Ev) (who : Nat) :
     (s.depth who = 0 → (s.step (.release who)).2 = false ∧ (s.step (.release who)).1.st = s.st) ∧
     (0 < s.depth who → (s.step (.release who)).2 = true ∧
         (s.step (.release who)).1.depth who = s.depth who - 1) := by
-  sorry
+  intro s
+  have hinv : s.Inv := RLockSys.inv_run {} evs RLockSys.inv_init
+  obtain ⟨_, f2, f3⟩ := RLockSys.inv_facts s hinv
+  obtain ⟨h1, h2⟩ := hinv
+  constructor
+  · intro h0
+    have hc : ¬ (s.st.owner = some who ∧ 0 < s.st.count) := by
+      rintro ⟨ho, hc⟩
+      have := h1 who
+      simp [ho] at this
+      omega
+    rw [RLockSys.step_release_fail s who hc]
+    exact ⟨rfl, rfl⟩
+  · intro hpos
+    have hc : s.st.owner = some who ∧ 0 < s.st.count := by
+      obtain ⟨ho, hcnt⟩ := f2 who hpos
+      exact ⟨ho, by omega⟩
+    rw [RLockSys.step_release_ok s who hc]
+    simp
 
 /-- `sem_bound`: never more holders than the configured value; the free permits account for them -/
 theorem sem_bound (n : Nat) (evs : List Ev) :
     let s := SemSys.run { st := { limit := n, free := n } } evs
     s.holding.length + s.st.free = n ∧ s.holding.length ≤ n := by
-  sorry
+  intro s
+  have h : s.Inv n := SemSys.inv_run n _ evs (by simp [SemSys.Inv])
+  obtain ⟨h1, _⟩ := h
+  exact ⟨h1, by omega⟩
 
 /-- `sem_release_refused`: with no permit out, release is refused and changes nothing -/
 theorem sem_release_refused (s : SemSt) (h : s.free = s.limit) : s.release = (s, false) := by
-  sorry
+  simp [SemSt.release, h]
 
 /-- `acquire_progress` (semaphore): an attempt succeeds exactly when a permit is free -/
 theorem sem_attempt (s : SemSt) : (s.tryAcquire).2 = decide (0 < s.free) := by
-  sorry
+  by_cases h : s.free > 0 <;> simp [SemSt.tryAcquire, h]
 
 /-- non-vacuity -/
 example : (LockSys.run {} [.acquire 0, .acquire 1, .release 0, .acquire 1]).holding = [1] := by decide
